@@ -29,7 +29,7 @@ ASSUMPTIONS = ['fetch margins (fragment_size) are at least the longest simulated
                'worker schedules are sampled (distinct completion orders observed are counted)']
 MIN_NONTRIVIAL = {'quick': 40, 'thorough': 2500}
 REQUIRED_MONITORS = ['run:serial', 'run:restricted_to_one_contig', 'lib:contig_with_placed_unmapped_pairs_only', 'run:contig_per_process', 'run:tiling_pool', 'run:tiling_nopool', 'records:compared', 'jobs:observed',
-                     'ownership:records_checked', 'edge:sites_on_bin_edges', 'lib:fragments_up_to_900bp', 'lib:hard_clipped_fragments', 'run:tiling_with_job_bed_file', 'run:one_contig_skipped', 'lib:empty_contig_between_populated_ones']
+                     'ownership:records_checked', 'edge:sites_on_bin_edges', 'lib:fragments_up_to_900bp', 'lib:hard_clipped_fragments', 'run:tiling_with_job_bed_file', 'run:one_contig_skipped', 'lib:empty_contig_between_populated_ones', 'lib:contig_name_with_separator_characters', 'edge:molecules_on_the_first_or_last_bases_of_a_contig']
 SHARD_TIMEOUT = {'quick': 900, 'thorough': 7200}
 IGNORE_TAGS = {'mi', 'ix'}
 
@@ -51,6 +51,10 @@ def run_case(case):
     seg = r.choice([100, 150, 500, 1000, 2500, 20000])    # tiles smaller than a fragment too
     # contig names that contain each other (chr1 / chr10, chr2 / chr21) as real references have
     contigs = [(nm, r.choice([4000, 9000, 21000])) for nm in ['chr1', 'chr10', 'chr2', 'chr21'][:r.randint(1, 4)]]
+    if case['i'] % 4 == 2:
+        # ... and names with the characters region strings and file names are made of
+        contigs[-1] = (r.choice(['HLA-A*01:01', 'chr1_KI270706v1_random', 'gi|9626243|ref|NC_001416.1|', 'NC_000001.11']), contigs[-1][1])
+        acc.count('lib:contig_name_with_separator_characters')
     if seg < 500:
         # hundreds of tiny tiles per contig are slow (one tagging task each): keep the genome small for them
         contigs = [(nm, min(ln, 4000)) for nm, ln in contigs[:2]]
@@ -105,6 +109,22 @@ def run_case(case):
                     if tr['site'] % seg in (0, 1, seg - 1):
                         edge_sites += 1
                     rid += 1
+    # molecules whose cut site lies on the very first / last bases of a contig (the last bin of a tiling ends there)
+    for name, ln in contigs:
+        if (name, ln) == lonely or name == 'chrEmpty' or r.random() < 0.4:
+            continue
+        for pos, reverse in ([(0, False), (ln - 4, True)] if method == 'nla' else [(1, False), (ln - 2, True), (ln - 1, True)]):
+            if method == 'nla':
+                gen.plant(name, pos)
+            umi, cell = F.rand_dna(r, 3), r.randint(1, 3)
+            for _ in range(r.randint(1, 3)):
+                fr, tr = F.make_fragment(gen, r, rid, case['i'] + 1, method, cell, name, pos, reverse, umi, r.randint(60, 300))
+                if fr is None:
+                    continue
+                recs.extend(fr)
+                truths[rid] = tr
+                rid += 1
+                acc.count('edge:molecules_on_the_first_or_last_bases_of_a_contig')
     for _ in range(r.choice([0, 2, 6])):
         recs.extend(F.unmapped_pair(r, rid, case['i'] + 1, r.randint(1, 3), F.rand_dna(r, 3),
                                     mx=F.MX_NLA if method == 'nla' else F.MX_CHIC_TRIMMED))
@@ -195,7 +215,9 @@ def run_case(case):
                     owner[(F.id_from_name(qn), mate)].add(ji)
                     acc.count('ownership:records_checked')
                     if ds is not None and 'tiling' in label:
-                        ok = any(t[0] == contig and t[1] is not None and t[1] <= ds < t[2] for t in e['tasks'])
+                        # a cut site just outside the contig (a read flush with its first / last base) belongs to the first / last bin
+                        ds_own = min(max(ds, 0), dict(gen.refs)[contig] - 1)
+                        ok = any(t[0] == contig and t[1] is not None and t[1] <= ds_own < t[2] for t in e['tasks'])
                         if not ok:
                             acc.violate('record-written-by-job-not-owning-its-site', f'{label}: read {qn} DS={ds} on {contig} written by job with tasks {e["tasks"][:4]} ({cfg})',
                                         dict(wit0, run=cfg))
